@@ -226,7 +226,7 @@ ASSUMPTIONS["C08"] = ["deductive part: the modal-parameter stage only (ssi.ac2mp
                       "gain, channel-permutation and whole-pipeline time-unit covariance are NOT proved: metamorphic bounded stand-in (labelled bounded)"]
 
 NOT_DECIDED = {
-    "C08": ["covariance under gain and channel permutation / orthogonal mixing for every algorithm class: bounded stand-in only (orthogonal mixing other than permutations is not exercised)",
+    "C08": ["covariance under gain and channel permutation / orthogonal mixing for every algorithm class: bounded stand-in only (one random orthogonal mixing per data set; the multi-setup variants are exercised for gain and time unit only)",
             "unit normalisation of FDD / EFDD shapes is proved under C06 (FDD_mpe's contract), not repeated here"],
     "C17": ["variance = squared directional derivative / sum of squares over several columns: bounded stand-in only (and it fails: open finding)",
             "the last data block is one sample short when nb divides N (the block slice is clamped to the N-1 available columns) but is still divided by Nb: a small bias the "
